@@ -1,4 +1,6 @@
 ENGINES = [
+ {'name': 'E1-symsql', 'path': 'engine/symsql/', 'serves_properties': ['C25'],
+  'kind_free_text': 'parser for the SQL text pony emits + denotational semantics over a symbolic database in z3 (per-dialect deltas), compared with a Python-semantics oracle'},
  {'name': 'E3-crosshair', 'path': 'engine/ch.py', 'serves_properties': ['C08'],
   'kind_free_text': 'CrossHair (z3-backed symbolic execution of the real Python functions) with reachability twins and untraced replay'},
 ]
@@ -6,6 +8,9 @@ NOTES = ('Solver-based checking of the real code. Every check imports pony from 
          'discharged or matched a listed known finding; exit 1 + VIOLATION = reproduced counterexample; exit 2 = harness error. '
          'Inconclusive solver results are printed (INCONCLUSIVE) and counted in evidence, never counted as discharged; VERIF_STRICT=1 makes them exit 2.')
 CLAIMS = {
+ 'C25': dict(engine='E1-symsql', level='translation_validation', technique='z3 linear integer arithmetic over the parsed SQL text emitted by the real translator+builder per dialect; string abstracted as a window of symbolic length; known-finding regions excluded by assumption and re-queried',
+   text='For each (dialect, start kind, stop kind) / (dialect, index kind) the real StringMixin.__getitem__ and the dialect builder emit SQL text; the text is parsed and evaluated symbolically; z3 proves the SQL substring window equals the Python slice window for ALL string lengths and ALL column-valued bounds (constants/parameters enumerated in [-K, K] and None). Counterexamples are replayed on real SQLite; other dialects are model-only.',
+   note='Trusted: sqlparse/sqlsem (SQLite substr model compared with the real engine on [-6,6]^3 each run), the cited substr semantics of PostgreSQL/MySQL/Oracle, z3. Outside: K beyond the tier bound, step slices (rejected by pony), collations.'),
  'C08': dict(engine='E3-crosshair', level='other', technique='CrossHair/z3 symbolic execution of the real converter and Attribute.validate code (symbolic declaration options and candidate value) + concrete tie to the four entry points',
    text='For symbolic min/max/size/unsigned/max_len/autostrip and a symbolic candidate, CrossHair confirms over all paths that IntConverter, RealConverter, StrConverter and Attribute/Required.validate accept exactly the values the declared predicate admits and return the documented normalisation; boundary witnesses are then pushed through constructor, assignment, set() and get().',
    note='Bounds: ints unbounded, finite floats (real-number model), strings len<=4 over a 3-char alphabet, six sizes. Error-message formatting is stubbed by a source rewrite regenerated from /repo each run (engine/rewrite.py). Trusted: CrossHair, z3, the reference predicates.'),
@@ -25,5 +30,5 @@ NOT_APPLICABLE = {
  'C32': 'detached objects read-only: enumeration of operations x object statuses, no value-dependent decision; ' + _HEAP,
  'C33': 'hooks once per change: call counting over flush rounds driven by arbitrary user hook bodies; ' + _HEAP,
 }
-for _p in ['C01','C02','C03','C04','C05','C06','C07','C13','C17','C18','C19','C20','C21','C22','C24','C25','C26','C27','C28','C29','C30','C31','C34','C35','C36']:
+for _p in ['C01','C02','C03','C04','C05','C06','C07','C13','C17','C18','C19','C20','C21','C22','C24','C26','C27','C28','C29','C30','C31','C34','C35','C36']:
     NOT_APPLICABLE.setdefault(_p, _TODO)
